@@ -119,6 +119,8 @@ impl WorkerTree {
             .filter(|work_item| !work_item.status.is_done())
             .count();
 
+        self.clean_files(resources);
+
         if total_not_done == 0 {
             return Ok(());
         }
